@@ -240,6 +240,11 @@ async fn default_timeouts(a: &Value) -> Value {
     }));
     let mut server_cfg = Config::default();
     server_cfg.inbound_request_timeout_ms = a.get("server_inbound_ms").and_then(|x| x.as_u64());
+    if let Some(n) = a.get("server_bidi_streams").and_then(|x| x.as_u64()) {
+        let mut quic = anemo::QuicConfig::default();
+        quic.max_concurrent_bidi_streams = Some(n);
+        server_cfg.quic = Some(quic);
+    }
     let server = anemo::Network::bind("127.0.0.1:0").server_name("verif").private_key([3; 32]).config(server_cfg).start(slow).expect("server");
     let mut client_cfg = Config::default();
     client_cfg.outbound_request_timeout_ms = a.get("client_outbound_ms").and_then(|x| x.as_u64());
@@ -254,6 +259,13 @@ async fn default_timeouts(a: &Value) -> Value {
     let peer = client.connect(server.local_addr()).await.expect("connect");
     let mut req = Request::new(Bytes::from_static(b"x"));
     if let Some(ms) = a.get("header_ms").and_then(|x| x.as_u64()) { req.set_timeout(Duration::from_millis(ms)); }
+    // optionally keep the connection's stream credit busy with earlier calls to the same slow handler
+    let mut earlier = Vec::new();
+    for _ in 0..a.get("earlier_calls").and_then(|x| x.as_u64()).unwrap_or(0) {
+        let c = client.clone();
+        earlier.push(tokio::spawn(async move { let _ = c.rpc(peer, Request::new(Bytes::from_static(b"e"))).await; }));
+    }
+    if !earlier.is_empty() { tokio::time::sleep(Duration::from_millis(50)).await; }
     let t0 = std::time::Instant::now();
     let res = client.rpc(peer, req).await;
     let ms = t0.elapsed().as_millis() as u64;
@@ -410,6 +422,10 @@ async fn history(args: &Value) -> Value {
     let r2 = a.connect_with_peer_id(c.local_addr(), b.peer_id()).await;
     tokio::time::sleep(Duration::from_millis(50)).await;
     steps.push(json!({"step": "A dials C's address naming B", "ok": r2.is_ok(), "a_lists_c": a.peers().contains(&c.peer_id()), "c_lists_a": c.peers().contains(&a.peer_id())}));
+    // 2b. A dials B's address again, this time naming C: B answers, so it must fail and change nothing
+    let r2b = a.connect_with_peer_id(b.local_addr(), c.peer_id()).await;
+    tokio::time::sleep(Duration::from_millis(50)).await;
+    steps.push(json!({"step": "A dials B's address naming C", "ok": r2b.is_ok(), "a_lists_c": a.peers().contains(&c.peer_id()), "a_still_lists_b": a.peers().contains(&b.peer_id())}));
     // 3. A dials C without naming anyone: returns C's identity
     let r3 = a.connect(c.local_addr()).await;
     steps.push(json!({"step": "A dials C unnamed", "ok": r3.is_ok(), "returned_is_c": r3.as_ref().ok() == Some(&c.peer_id()), "a_lists_c_on_return": a.peers().contains(&c.peer_id())}));
@@ -441,7 +457,7 @@ async fn history(args: &Value) -> Value {
 
 fn main() {
     let args: Vec<String> = std::env::args().collect();
-    let multi = matches!(args.get(1).map(|s| s.as_str()), Some("admission") | Some("default_timeouts") | Some("rpc_pairing") | Some("history") | Some("oversize_confined") | Some("hostile_streams") | Some("network_names") | Some("claimed_name_grid"));
+    let multi = matches!(args.get(1).map(|s| s.as_str()), Some("admission") | Some("default_timeouts") | Some("rpc_pairing") | Some("history") | Some("oversize_confined") | Some("hostile_streams") | Some("network_names") | Some("claimed_name_grid") | Some("header_only_deadline"));
     let rt = if multi {
         tokio::runtime::Builder::new_multi_thread().worker_threads(2).enable_all().build().unwrap()
     } else {
@@ -569,6 +585,7 @@ async fn run(args: Vec<String>) {
         "cert_corpus" => certs::cert_corpus(&a),
         "network_names" => network_names(&a).await,
         "claimed_name_grid" => rawdial::claimed_name_grid(&a).await,
+        "header_only_deadline" => hostile::header_only_deadline(&a).await,
         "hostile_streams" => hostile::hostile_streams(&a).await,
         // several messages written in ONE process, one after the other (state kept between calls would show)
         #[cfg(feature = "hooks-wire")]
